@@ -492,6 +492,15 @@ def rvec(orig, rule):
     return '%s: { let mut __v = Vec::new(); let __x = %s; let __n = %s; for __i in 0..__n { __v.push(__x); } __v },' % (f, v, n)
 
 
+def r32(orig, rule):
+    # M[&K]  ->  *M.get(&K).unwrap()      (HashMap's Index impl is `self.get(key).expect(..)`: same value, same panic condition)
+    s = norm(orig)
+    out, n = re.subn(r'((?:%s \. )*%s) \[ & (%s) \]' % (ID, ID, ID), r'* \1 . get ( & \2 ) . unwrap ( )', s)
+    if n == 0:
+        raise NoMatch('no M[&K]')
+    return out
+
+
 def r1b(orig, rule):
     # for (I, X) in E.iter().enumerate() {   ->  for I in 0..E.len() { let X = &E[I];      (X bound to a reference, as the iterator yields)
     s = norm(orig)
@@ -509,7 +518,7 @@ def r1t(orig, rule):
 
 
 GENERATORS = {
-    'R1b': r1b, 'R1t': r1t, 'R22': r22, 'R23': r23, 'R24': r24, 'R18m': r18m, 'RRET': rret, 'R26': r26, 'R18a': r18a, 'RTY': rty, 'R31': r31, 'RVEC': rvec, 'R29': r29, 'R30': r30, 'R30t': r30t, 'R28': r28, 'RPANIC': rpanic,
+    'R1b': r1b, 'R1t': r1t, 'R22': r22, 'R23': r23, 'R24': r24, 'R18m': r18m, 'RRET': rret, 'R26': r26, 'R18a': r18a, 'RTY': rty, 'R32': r32, 'R31': r31, 'RVEC': rvec, 'R29': r29, 'R30': r30, 'R30t': r30t, 'R28': r28, 'RPANIC': rpanic,
     'RBW': rbw,
     'R4m': r4m,
     'R12m': r12m,
